@@ -163,22 +163,24 @@ func (server *Server) Scan(conn *redis.Conn, cursor int, opt redis.ScanOption) (
 	keys := db.Keys()
 	sort.Strings(keys)
 	matchKeys := proto.NewArray()
+	// The cursor is the position of the next key to examine in the sorted key list,
+	// 0 again once the whole list has been examined.
 	lastCursor := 0
-	for n, key := range keys {
-		lastCursor = n
-		if 0 < cursor && n <= cursor {
-			continue
-		}
+	if cursor < 0 {
+		cursor = 0
+	}
+	for n := cursor; n < len(keys); n++ {
+		key := keys[n]
 		if !opt.MatchPattern.MatchString(key) {
 			continue
 		}
 		matchKeys.Append(redis.NewBulkMessage(key))
 		if opt.Count <= matchKeys.Size() {
+			if n+1 < len(keys) {
+				lastCursor = n + 1
+			}
 			break
 		}
-	}
-	if lastCursor == len(keys) {
-		lastCursor = 0
 	}
 	array := proto.NewArray()
 	array.Append(redis.NewBulkMessage(strconv.Itoa(lastCursor)))
